@@ -47,3 +47,16 @@ brk("c47-sdmf-no-test-vector", "mutable/layout.py",
     "        tw_vectors = {}\n        tw_vectors[self.shnum] = (self._testvs, datavs, None)\n        return self._storage_server.slot_testv_and_readv_and_writev(\n            self._storage_index,\n            self._secrets,\n            tw_vectors,\n            # TODO is it useful to read something?",
     "        tw_vectors = {}\n        tw_vectors[self.shnum] = ([], datavs, None)\n        return self._storage_server.slot_testv_and_readv_and_writev(\n            self._storage_index,\n            self._secrets,\n            tw_vectors,\n            # TODO is it useful to read something?",
     "SDMF writes carry no test vector: another writer's version on the written share number is replaced and success reported")
+# the defects repaired by fix: commits 22f500d and 8c22511, re-planted
+brk("c47-replant-update-uses-node-k-n", "mutable/publish.py",
+    "        self.required_shares = version[5] # verinfo[5] == k\n        self.total_shares = version[6] # verinfo[6] == N\n",
+    "        self.required_shares = self._node.get_required_shares()\n        self.total_shares = self._node.get_total_shares()\n",
+    "in-place update encodes with the writer client's default k/N instead of the file's")
+brk("c47-replant-update-writes-other-version-shares", "mutable/publish.py",
+    "                         if verinfo == version])",
+    "                         if True])",
+    "in-place update also writes into copies that hold another version")
+brk("c47-surviving-writers-counted", "mutable/publish.py",
+    "        num_shnums = len(self.writers)\n",
+    "        num_shnums = sum([len(ws) for ws in self.writers.values()])\n",
+    "surviving writers are counted instead of distinct share numbers (= seeded C47-7)")
